@@ -10,6 +10,7 @@ RULE = ("non-trivial = a 3-D rotation / axis-relative spherical-coordinate case 
         "or whose argument objects (axis, rotated vector, multiplied matrices) reach the call through a non-empty call history, "
         "or a history of at least two calls made in one pristine process (`seq`), or a product of at least two rotation matrices (`rotchain`, `chaindt`), "
         "or the library's Determinant() / Trace() of a matrix with at least three rows (`matdt`: the Laplace recursion is exercised); "
+        "or the library's Inverse() / Invertible() / Orthogonal() / Transpose() / Norm() of a matrix with at least three rows (`matinv`, `matorth`: pivot search and elimination over at least three rows), `rotinv` as `rot`; "
         "guard requests (wrong dimension / axis size) count when they exit; distinct by case text")
 LEVEL_TEXT = ("Theorems (Coq, over the reals, for every angle and every non-zero axis of any length): the 2-D and 3-D matrices returned by the "
               "model of Rotation_Matrix are orthogonal (R^T R = R R^T = 1, all entries), have determinant one, the 3-D rotation fixes the axis and its unit vector, "
@@ -49,7 +50,19 @@ LEVEL_TEXT = ("Theorems (Coq, over the reals, for every angle and every non-zero
               "the 2-D rotation turns every non-zero vector by alpha as measured by the library's Angle: Angle(v, R v) = Angle(R v, v) = |alpha| on [-pi, pi] (C16_rotation2_turns_by_alpha; a theorem only - the 2-D Angle is exercised by the `angle` cases, not by an operation of its own). "
               "Tied to the code by the operations `rotdt` (Determinant() and Trace() of one Rotation_Matrix, 2-D and 3-D, every kind of axis, guards), `chaindt` (of the library-built product of 0 .. 24 rotations) and `matdt` (of arbitrary rectangular matrices with 1 .. 6 rows: "
               "integer, Gaussian, sparse, badly scaled, singular; non-square shapes must end the process), bit-identical, with S4 clauses: Determinant() = 1 and Trace() = 1 + 2 cos / 2 cos to a-priori slack, Trace() of same-direction products against the sum of the angles, "
-              "Determinant() against an exact rational determinant, Trace() against the exactly summed diagonal.  NOT modelled: Matrix::Inverse() (Gauss-Jordan with pivoting) and Matrix::Orthogonal() (an exact == of doubles) - 'transpose equals inverse' is a theorem about the library's products only; the value of Determinant() for sizes above 3 is tested (matdt), not proved equal to the Leibniz determinant. "
+              "Determinant() against an exact rational determinant, Trace() against the exactly summed diagonal.  Seventh pass (C16_Model2.v, C16_Proofs_Inv.v, coverage/C16.md): Matrix::Inverse() (Gauss-Jordan elimination with partial pivoting on the augmented matrix, row swaps, the 'Matrix is singular' exit, normalisation, removal of the left half), "
+              "Matrix::Invertible(), Matrix::Orthogonal() (Transpose() == Inverse() with operator==, an exact comparison), Matrix::Transpose() and Matrix::Norm() are now in the model line by line ([minverse], [minvertible], [morthogonal], [meqb], [mtranspose], [mnorm]) "
+              "and tied to the code by the operations `rotinv` (Inverse(), Transpose(), Norm() of one Rotation_Matrix), `matinv` and `matorth` (arbitrary rectangular matrices of 1 .. 5 rows: integer, Gaussian, sparse, badly scaled, singular, signed permutations, embedded plane rotations; bit-identical), "
+              "with S4 clauses: Inverse() of a rotation = Transpose() to 1024 eps, Transpose() = the rotation by -alpha, Norm() = sqrt(dim), Inverse() against the exact rational inverse with the a-priori forward-error bound 64 n^3 2^(n-1) kappa eps, Transpose() exactly, "
+              "Invertible() against the exact determinant on small-integer matrices, Orthogonal() true on signed permutations and only on matrices with M^T M = 1 to that bound, non-square and singular requests end the process.  "
+              "Theorems: for EVERY regular 2 x 2 real matrix, on both branches of the pivot search, Inverse() returns the adjugate over the determinant and it is the two-sided inverse under the library's product (C16_inverse_2x2_by_the_library); "
+              "for the 2-D rotation and every angle Inverse() = Transpose() entry by entry, Invertible() and Orthogonal() answer true, Norm() = sqrt 2 (C16_rotation2_inverse_is_transpose_by_the_library); in 3-D, for every angle and non-zero axis, Transpose() is the two-sided inverse and the rotation by -alpha, "
+              "Invertible() answers true, Norm() = sqrt 3 (C16_rotation3_transpose_norm_by_the_library); for EVERY number type and size: Inverse() ends the process / Invertible() and Orthogonal() answer false for rows <> columns and for a determinant that compares equal to zero, "
+              "and Inverse() of a well-formed square matrix either returns or ends the process - never out of fuel (induction over the pivot loop; C16_inverse_guards).  "
+              "T-tie: the brace-initialised entry lists of Rotation_Matrix (2-D, 3-D: all nine Rodrigues entries with cosa, sina, n1..n3) and of both Spherical_Coordinates (plain, antiparallel, the unit vector of the general branch) are translated from clang's AST of the current source on every run "
+              "(tools/cxx2gallina_C16.py -> coq/Gen_C16_Formulas.v) and proved equal to the hand model for every number type by reflexivity (C16_generated_*_is_model): a changed sign / index / operand / operation order there is a broken proof obligation before any case runs.  "
+              "NOT a theorem: that Inverse() returns the transpose for a 3-D rotation (the value of the Gauss-Jordan inverse is proved for 2 x 2 only; n >= 3 is correspondence + S4); the value of Determinant() for sizes above 3 is tested (matdt), not proved equal to the Leibniz determinant; "
+              "the branch conditions of Spherical_Coordinates(.., axis), axis.Normalize() and r * unit_vector are hand-written (not generated). "
               "Not theorems: everything about rounding (orthogonality etc. 'to rounding', the behaviour near the poles in floating point, underflow of ev0^2+ev1^2, acos of a quotient an ulp above 1), "
               "and that the C++ objects carry no state beyond their components (the model has none by construction). "
               "Both are covered by the differential run of the extracted model against the library (bit-identical) - every Vector argument also as ONE live object taken through a generated "
@@ -60,16 +73,29 @@ LEVEL_TEXT = ("Theorems (Coq, over the reals, for every angle and every non-zero
               "polar cosine and sine - for radii of every magnitude, subnormal .. 1e307, also aimed at r / aux and r * aux near the overflow / underflow thresholds for axes tilted slightly from +-z, each clause evaluated on the scale of r -, the library's Angle, finite-difference handedness (ev x u(phi)).(u(phi+h)-u(phi)) = r^2 sin^2(theta) sin(h)) with a-priori rounding slack 64 eps, "
               "evaluated against the value the reference semantics of the history gives the object.")
 LEVEL_NOTE = ("Coq 8.16.1 kernel, theorems over R with the standard library's sin, cos, sqrt, acos and Coquelicot's is_derive (axioms of the real numbers as printed by Print Assumptions); "
-              "hand-written model tied by differential correspondence (extraction with ExtrOcamlBasic only); std::hypot is a function argument of the model, instantiated with "
+              "hand-written model tied by differential correspondence (extraction with ExtrOcamlBasic only); T-tie for the entry lists of Rotation_Matrix and Spherical_Coordinates: tools/cxx2gallina_C16.py (wrapping tools/cxx2gallina.py) regenerates coq/Gen_C16_Formulas.v from clang's AST before the proofs are rebuilt "
+              "(Vector::operator[] with a literal index is a variable, the tokens 1.0 / 0.0 are n1 / n0); which parts of the code are modelled line by line, by specification or not at all: coverage/C16.md; std::hypot is a function argument of the model, instantiated with "
               "sqrt(x*x+y*y) in the theorems and with libm's hypot in the float instance; libm sin/cos/sqrt/hypot/acos are the same functions on both sides; "
               "the class invariant dimension = components.size() of Vector / Matrix (theorems of C04) lets an object be modelled by its component list")
 TOL = (1e-13, 1e-300)
-TRUSTED = ["libm sin, cos, acos, hypot and IEEE sqrt are modelled by the real functions of the same name / by sqrt(x^2+y^2) (the S4 predicates assume each is accurate to about one ulp)"]
+TRUSTED = ["tools/cxx2gallina_C16.py, tools/cxx2gallina.py and clang 14's JSON AST for the generated entry formulas (validated on every run: the generated terms are proved equal to the model that is run against the library)",
+           "libm sin, cos, acos, hypot and IEEE sqrt are modelled by the real functions of the same name / by sqrt(x^2+y^2) (the S4 predicates assume each is accurate to about one ulp)"]
 ASSUMPTIONS = ["Rotation_Matrix with a zero axis returns NaN entries and Spherical_Coordinates with a zero axis falls back to the plain formula: "
                "outside the property's quantifier (non-zero axes); both are still compared with the model"]
 
 EPS = 2.0 ** -53
 PI = math.pi
+
+
+def regenerate():
+    """T-tie: the entry formulas of Rotation_Matrix (2-D, 3-D) and of both Spherical_Coordinates are translated from clang's AST of the
+    current source into coq/Gen_C16_Formulas.v; coq/C16_GenTie.v proves them equal to the hand model for every number type"""
+    import os, vbuild, cxx2gallina, cxx2gallina_C16
+    try:
+        ch = cxx2gallina_C16.regenerate_c16(vbuild.REPO, os.path.join(vbuild.VERIF, "coq"))
+    except cxx2gallina.Unsupported as e:
+        raise RuntimeError(f"tools/cxx2gallina_C16.py cannot translate src/Linear_Algebra.cpp: {e}")
+    return "Gen_C16_Formulas.v regenerated from the current source" if ch else ""
 
 
 def _axes(rng, n_random):
@@ -412,6 +438,8 @@ def _decode(line):
         elif op == "chaindt":
             d.update(dim=cur.int()); n = cur.int(); d["factors"] = [(cur.num(), cur.lst()) for _ in range(n)]
         elif op == "matdt": d["M"] = [cur.lst() for _ in range(cur.int())]
+        elif op in ("matinv", "matorth"): d["M"] = [cur.lst() for _ in range(cur.int())]
+        elif op == "rotinv": d.update(alpha=cur.num(), dim=cur.int()); d["axis"] = cur.lst()
     except _Exit:
         d["exit"] = True
     return d
@@ -890,6 +918,42 @@ def _dt_cases(rng, big):
     return cs
 
 
+def _inv_cases(rng, big):
+    """the library's own Inverse() (Gauss-Jordan, partial pivoting), Invertible(), Orthogonal(), Transpose(), operator== and Norm():
+    of one rotation (every kind of axis, 2-D, guards) and of arbitrary rectangular matrices of 1 .. 5 rows aimed at the branches of the
+    elimination: pivot already on the diagonal / below it / ties of |.|, zero pivots (singular: the process must end), non-square shapes,
+    exactly orthogonal matrices (signed permutations: Orthogonal() must say 1)"""
+    cs = []
+    pool = _axes(rng, 400 if big else 40)
+    for axis, tag in (pool if big else rng.sample(pool, min(len(pool), 60))):
+        cs.append(Case(f"rotinv {hx(_angle(rng))} 3 {flist(axis)}", ("rotinv", tag)))
+    for _ in range(300 if big else 25):
+        cs.append(Case(f"rotinv {hx(_angle(rng))} 2 {flist(rng.choice([[], [0.0, 0.0, 1.0], [1.0]]))}", ("rotinv", "rot2")))
+    for dim, ax in ((0, [0.0, 0.0, 1.0]), (4, [0.0, 0.0, 1.0]), (3, [1.0, 0.0]), (3, [0.0, 0.0, 1.0, 0.0])):
+        cs.append(Case(f"rotinv {hx(0.3)} {dim} {flist(ax)}", ("rot-guard",)))
+    for _ in range(2000 if big else 120):
+        n = rng.choice([1, 2, 2, 3, 3, 3, 4, 5]); m = n if rng.random() < 0.9 else rng.choice([k for k in range(1, 6) if k != n])
+        kind = rng.choice(["int", "int", "gauss", "sparse", "scaled", "perm", "rotlike"])
+        def ent():
+            if kind == "int": return float(rng.randint(-3, 3))
+            if kind == "sparse": return rng.choice([0.0, 0.0, 1.0, -1.0, rng.gauss(0, 1)])
+            if kind == "scaled": return rng.gauss(0, 1) * 10 ** rng.uniform(-8, 8)
+            return rng.gauss(0, 1)
+        M = [[ent() for _ in range(m)] for _ in range(n)]
+        if kind == "perm" and n == m:
+            pm = list(range(n)); rng.shuffle(pm)
+            M = [[(rng.choice([1.0, -1.0]) if pm[i] == j else 0.0) for j in range(n)] for i in range(n)]
+        if kind == "rotlike" and n == m and n >= 2:
+            # a plane rotation embedded in the identity, with exactly representable entries (3/5, 4/5 are not; 0, +-1 and halves are)
+            M = [[1.0 if i == j else 0.0 for j in range(n)] for i in range(n)]
+            i, j = rng.sample(range(n), 2); a = _angle(rng); c, sn = math.cos(a), math.sin(a)
+            M[i][i] = c; M[j][j] = c; M[i][j] = -sn; M[j][i] = sn
+        if kind == "int" and n == m and n >= 2 and rng.random() < 0.25: M[-1] = list(M[0])          # a singular matrix
+        op = "matinv" if rng.random() < 0.6 else "matorth"
+        cs.append(Case(f"{op} {_fmt_tab(M)}", (op, f"{op}-{n}x{m}" if n != m else f"{op}-square-{n}", op + "-" + kind)))
+    return cs
+
+
 def generate(rng, tier):
     cs = []
     big = tier != "quick"
@@ -1007,6 +1071,8 @@ def generate(rng, tier):
     # ---- the library's own Determinant() / Trace() of rotations, of their products, and of matrices of every size (appended last: the
     #      random stream of the older regions is unchanged)
     cs += _dt_cases(rng, big)
+    # ---- the library's own Inverse() / Invertible() / Orthogonal() / Transpose() / Norm() (seventh pass; appended last)
+    cs += _inv_cases(rng, big)
     return cs
 
 
@@ -1036,6 +1102,8 @@ def nontrivial(c, io):
     if op in ("rotchain", "chaindt"): return len(d["factors"]) >= 2
     if op == "rotdt": return (d["dim"] == 3 and (ax_nt(d["axis"]) or abs(d["alpha"]) > 2 * PI)) or (d["dim"] == 2 and abs(d["alpha"]) > 2 * PI)
     if op == "matdt": return len(d["M"]) >= 3
+    if op == "rotinv": return (d["dim"] == 3 and (ax_nt(d["axis"]) or abs(d["alpha"]) > 2 * PI)) or (d["dim"] == 2 and abs(d["alpha"]) > 2 * PI)
+    if op in ("matinv", "matorth"): return len(d["M"]) >= 3
     if op == "rotangle": return ax_nt(d["axis"]) or abs(d["alpha"]) > 2 * PI
     if op == "rotsph" and not 1e-3 <= d["r"] <= 1e3: return True
     if op in ("rotapply", "rotback", "rotaxis", "rotsph", "sphrot"): return ax_nt(d["axis"]) or abs(d["alpha"]) > 2 * PI
@@ -1318,6 +1386,97 @@ def _exact_det(M):
     return det
 
 
+def _exact_inverse(M):
+    """the inverse of a square matrix of doubles over the rationals (None when singular)"""
+    from fractions import Fraction
+    n = len(M); A = [[Fraction(x) for x in r] + [Fraction(int(i == j)) for j in range(n)] for i, r in enumerate(M)]
+    for i in range(n):
+        p = next((k for k in range(i, n) if A[k][i] != 0), None)
+        if p is None: return None
+        A[i], A[p] = A[p], A[i]
+        piv = A[i][i]; A[i] = [x / piv for x in A[i]]
+        for k in range(n):
+            if k != i and A[k][i] != 0:
+                f = A[k][i]; A[k] = [x - f * y for x, y in zip(A[k], A[i])]
+    return [r[n:] for r in A]
+
+
+def _gj_slack(n): return 64 * n ** 3 * 2 ** (n - 1) * EPS      # c n^3 rho eps with the growth bound 2^(n-1) of partial pivoting
+
+
+def _inv_checks(d, o, exited, out):
+    """'transpose equals inverse' asked of the library's own objects: Inverse() (Gauss-Jordan with partial pivoting), Invertible(), Orthogonal(),
+    Transpose(), Norm().  A-priori slack: the forward error of Gaussian elimination with partial pivoting, c n^3 2^(n-1) kappa eps (c = 64),
+    kappa = |M|_inf |M^-1|_inf computed exactly over the rationals; 1024 eps for a rotation (kappa = 1, n <= 3, entries off by <= 64 eps)."""
+    op = d["op"]
+    if op == "rotinv":
+        alpha, dim, axis = d["alpha"], d["dim"], d["axis"]
+        valid = dim == 2 or (dim == 3 and len(axis) == 3)
+        if not valid:
+            if not exited: out.append(("rot:guard", f"Rotation_Matrix accepted dim={dim} with a {len(axis)}-component axis"))
+            return
+        if dim == 3 and (not any(axis) or not all(math.isfinite(x) for x in axis)): return
+        if exited: out.append(("rotinv:exit", f"Inverse() of Rotation_Matrix({alpha!r}, {dim}, {axis!r}) terminated the process")); return
+        Ri, rest = _mat(o); Rt, rest = _mat(rest); nr = rest[0]
+        if len(Ri) != dim or len(Rt) != dim: out.append(("rotinv:shape", f"Inverse() / Transpose() of a {dim}-D rotation has {len(Ri)} / {len(Rt)} rows")); return
+        bad = [(i, j) for i in range(dim) for j in range(dim) if not abs(Ri[i][j] - Rt[i][j]) <= 1024 * EPS]
+        if bad:
+            i, j = bad[0]
+            out.append((f"rot{dim}:transpose-is-inverse", f"Rotation_Matrix({alpha!r}, {dim}, {axis!r}): Inverse()[{i}][{j}] = {Ri[i][j]!r}, Transpose()[{i}][{j}] = {Rt[i][j]!r}"))
+        # the transpose is the rotation by -alpha about the same axis
+        _rot_answer_checks(-alpha, dim, axis, Rt, out, " (Transpose() of the rotation by alpha)")
+        if not abs(nr - math.sqrt(dim)) <= 64 * EPS: out.append((f"rot{dim}:norm", f"Norm() of a {dim}-D rotation is {nr!r}, sqrt({dim}) expected"))
+        return
+    M = d["M"]; n = len(M); sq = all(len(r) == n for r in M)
+    finite = all(math.isfinite(x) for r in M for x in r)
+    small_int = finite and all(x == int(x) and abs(x) <= 3 for r in M for x in r)        # Determinant() is exact on these
+    X = _exact_inverse(M) if (sq and finite) else None
+    if op == "matinv":
+        if not sq:
+            if not exited: out.append(("matinv:guard", f"Inverse() of a {n}x{len(M[0])} matrix returned"))
+            return
+        if not finite: return
+        if X is None:
+            if small_int and not exited: out.append(("matinv:singular", f"Inverse() of the singular matrix {M!r} returned"))
+            return
+        nm = max(math.fsum(abs(x) for x in r) for r in M); nx = float(max(sum(abs(x) for x in r) for r in X)); kappa = nm * nx
+        if exited:
+            if small_int or kappa < 1e6: out.append(("matinv:exit", f"Inverse() of the regular matrix {M!r} (condition number {kappa:.3g}) terminated the process"))
+            return
+        Y, rest = _mat(o); nr = rest[0]
+        if len(Y) != n or any(len(r) != n for r in Y): out.append(("matinv:shape", f"Inverse() of a {n}x{n} matrix is {len(Y)}x{len(Y[0]) if Y else 0}")); return
+        sl = _gj_slack(n) * kappa
+        if sl < 1e-3:
+            bad = [(i, j) for i in range(n) for j in range(n) if not abs(Y[i][j] - float(X[i][j])) <= sl * nx]
+            if bad:
+                i, j = bad[0]; out.append(("matinv:inverse", f"Inverse() of {M!r}: entry [{i}][{j}] = {Y[i][j]!r}, exactly {float(X[i][j])!r} (condition number {kappa:.3g})"))
+        sq2 = math.fsum(x * x for r in M for x in r)
+        if 1e-290 < sq2 < 1e290 and not abs(nr - math.sqrt(sq2)) <= (n * n + 2) * EPS * math.sqrt(sq2): out.append(("matinv:norm", f"Norm() of {M!r} is {nr!r}, exactly {math.sqrt(sq2)!r}"))
+        return
+    # matorth: Invertible(), Orthogonal(), Transpose()
+    if exited:
+        # Orthogonal() calls Inverse(), which ends the process on a zero pivot; only a regular well-conditioned matrix must be answered
+        if not sq or (X is not None and small_int): out.append(("matorth:exit", f"Invertible() / Orthogonal() / Transpose() of {M!r} terminated the process"))
+        return
+    inv, orth = o[0], o[1]; Tm, _ = _mat(o[2:])
+    want = [list(col) for col in zip(*M)]
+    if [list(r) for r in Tm] != want and finite: out.append(("matorth:transpose", f"Transpose() of {M!r} is {Tm!r}"))
+    if not sq:
+        if inv != 0 or orth != 0: out.append(("matorth:guard", f"a {n}x{len(M[0])} matrix is called invertible ({inv}) / orthogonal ({orth})"))
+        return
+    if not finite: return
+    if small_int and inv != (0 if X is None else 1): out.append(("matorth:invertible", f"Invertible() of {M!r} is {inv}, the determinant is {float(_exact_det(M))!r}"))
+    if orth == 1:
+        nm = max(math.fsum(abs(x) for x in r) for r in M); nt = max(math.fsum(abs(x) for x in r) for r in want)
+        sl = _gj_slack(n) * nm * nt * nm
+        G = [[math.fsum(M[k][i] * M[k][j] for k in range(n)) for j in range(n)] for i in range(n)]
+        bad = [(i, j) for i in range(n) for j in range(n) if not abs(G[i][j] - (1.0 if i == j else 0.0)) <= sl]
+        if bad: out.append(("matorth:orthogonal", f"Orthogonal() of {M!r} is true, (M^T M){list(bad[0])} = {G[bad[0][0]][bad[0][1]]!r}"))
+    # a signed permutation matrix is exactly orthogonal and the elimination is exact on it
+    if n >= 1 and all(x in (0.0, 1.0, -1.0) for r in M for x in r) and all(sum(1 for x in r if x) == 1 for r in M) and all(sum(1 for x in c if x) == 1 for c in want):
+        if orth != 1: out.append(("matorth:permutation", f"Orthogonal() of the signed permutation matrix {M!r} is false"))
+
+
 def _dt_checks(d, o, exited, out):
     """Determinant() and Trace() asked of the library's own objects.  A 3x3 Laplace expansion of entries of magnitude <= 1 carries < 16 rounding
     errors on top of the entries' own (64 eps for a rotation, (n + 1) 64 eps for a product of n, as in the single-matrix clauses)."""
@@ -1491,6 +1650,8 @@ def predicates(c, io):
                 _rot3_matrix_checks(R, d["alpha"], u, out, f" (axis {u!r}, a vector returned by Spherical_Coordinates)")
     elif op in ("rotdt", "chaindt", "matdt"):
         _dt_checks(d, o, exited, out)
+    elif op in ("rotinv", "matinv", "matorth"):
+        _inv_checks(d, o, exited, out)
     elif op == "rotchain":
         if exited: return [("rotchain:exit", "a product of valid rotations terminated the process")]
         _chain_checks(d, o, out)
